@@ -1200,6 +1200,32 @@ func c13Storm(h *WHub, p c13Plan) (res c13StormResult) {
 	}
 	if _, msg := c13RawIDs(h.Hub); msg != "" {
 		res.Violation = "RAW identifier indexes: " + msg
+		return
+	}
+	// permanence: everything that was handed out during the storm is still there after a restart
+	// (what is persisted must be what was handed out, whatever the order in which writers got to the disk)
+	h.Restart()
+	m2, err := c13Namespaces(h)
+	if err != nil {
+		res.Violation = "after restart: " + err.Error()
+		return
+	}
+	for _, pfx := range kit.SortedKeys(m) {
+		if m2[pfx] != m[pfx] {
+			res.Violation = fmt.Sprintf("PERMANENCE prefix %s stood for %q before the restart (handed out during concurrent namespace introductions) and stands for %q after it", pfx, m[pfx], m2[pfx])
+			return
+		}
+	}
+	for _, u := range kit.SortedKeys(posted) {
+		_, e, found, err := c13Query(h, u, false)
+		if err != nil || !found {
+			res.Violation = fmt.Sprintf("PERMANENCE %q was posted (acknowledged) and is not found after the restart: %v", u, err)
+			return
+		}
+		if prev, ok := ids[e.InternalID]; !ok || prev != u {
+			res.Violation = fmt.Sprintf("PERMANENCE %q has internal id %d after the restart, which belonged to %q before", u, e.InternalID, prev)
+			return
+		}
 	}
 	return
 }
@@ -1304,3 +1330,91 @@ func TestVerifProbe_F12(t *testing.T) {
 }
 
 var _ = sort.Strings
+
+// C13, bursts: k goroutines each introduce ONE fresh namespace at the same
+// instant (spin barrier), through different entry points; then the hub is
+// restarted. Every prefix that was handed out must stand for the same expansion
+// after the restart, and the map must still be one-to-one. Many short rounds:
+// what is persisted last decides, so the interesting interleaving is that of
+// the final two writers of a round.
+func TestVerif_C13_burst(t *testing.T) {
+	defer kit.S().Flush()
+	defer kit.CleanupScratch()
+	defer runtime.GOMAXPROCS(runtime.GOMAXPROCS(0))
+	rapid.Check(t, func(t *rapid.T) {
+		k := rapid.IntRange(2, 8).Draw(t, "asserters")
+		rounds := rapid.IntRange(1, 4).Draw(t, "rounds")
+		procs := rapid.SampledFrom([]int{2, 4, 16}).Draw(t, "procs")
+		runtime.GOMAXPROCS(procs)
+		kinds := make([]int, k)
+		for i := range kinds {
+			kinds[i] = rapid.IntRange(0, 2).Draw(t, "entry")
+		}
+		desc := map[string]any{"burst": true, "asserters": k, "rounds": rounds, "procs": procs, "entry": kinds}
+		kit.Journal(desc)
+		defer kit.JournalDone()
+		h := NewWHub(kit.HubOpts{})
+		defer h.Close()
+		fail := func(format string, a ...any) {
+			b, _ := json.Marshal(desc)
+			t.Fatalf("%s\nVERIF-CASE-BEGIN\n%s\nVERIF-CASE-END", fmt.Sprintf(format, a...), b)
+		}
+		handed := map[string]string{} // prefix -> expansion, as handed out
+		for r := 0; r < rounds; r++ {
+			got := make([]string, k)
+			exps := make([]string, k)
+			var arrived int32
+			var wg sync.WaitGroup
+			for i := 0; i < k; i++ {
+				i := i
+				exps[i] = fmt.Sprintf("http://burst.example/r%d-g%d%s", r, i, []string{"/", "#"}[i%2])
+				wg.Add(1)
+				go func() {
+					defer wg.Done()
+					atomic.AddInt32(&arrived, 1)
+					for spin := 0; atomic.LoadInt32(&arrived) < int32(k); spin++ {
+						if spin%2048 == 2047 {
+							runtime.Gosched()
+						}
+					}
+					switch kinds[i] {
+					case 0:
+						c, err := h.Store.GetNamespacedIdentifier(exps[i]+"x", nil)
+						if err == nil && strings.Contains(c, ":") {
+							got[i] = c[:strings.Index(c, ":")]
+						}
+					case 1:
+						got[i], _ = server.NewContextualStore(h.Store).NamespaceManager.AssertPrefixMappingForExpansion(exps[i])
+					default:
+						got[i], _ = h.Store.NamespaceManager.AssertPrefixMappingForExpansion(exps[i])
+					}
+				}()
+			}
+			wg.Wait()
+			for i := 0; i < k; i++ {
+				if got[i] == "" {
+					fail("no prefix was handed out for %q", exps[i])
+				}
+				if prev, ok := handed[got[i]]; ok && prev != exps[i] {
+					fail("BIJECTION prefix %s was handed out for %q and for %q", got[i], prev, exps[i])
+				}
+				handed[got[i]] = exps[i]
+			}
+			h.Restart()
+			m, err := c13Namespaces(h)
+			if err != nil {
+				fail("after restart: %v", err)
+			}
+			if s := c13Bijective(m); s != "" {
+				fail("BIJECTION after restart: %s", s)
+			}
+			for _, pfx := range kit.SortedKeys(handed) {
+				if m[pfx] != handed[pfx] {
+					fail("PERMANENCE prefix %s was handed out for %q (round %d: %d namespaces introduced at the same instant); after the restart it stands for %q", pfx, handed[pfx], r, k, m[pfx])
+				}
+			}
+		}
+		kit.S().Case(desc, true, fmt.Sprintf("burst-asserters-%d", k), fmt.Sprintf("procs-%d", procs))
+		kit.S().AddExtra("burst_rounds_with_restart", rounds)
+	})
+}
